@@ -17,8 +17,8 @@ PROPS = {
              "bound that match the grammar, boundary lattice, tree family T(2,2) with whitespace deviations, T(1,3), "
              "nesting chains to 31, raw UTF-8 boundaries, strings/names/numbers crossing the 32/64/128-byte scanner buffer steps with an escape at every position) x {default,strict} x {NUL-terminated, exact length + guard page}; "
              "non-trivial = distinct text whose parsed dump is longer than a scalar tag",
-        bound=dict(quick="number strings <= 6 bytes; supplementary pairs at bit-field edges; ws deviations on T(1,2) only",
-                   thorough="number strings <= 8 bytes; all 1,048,576 supplementary pairs; ws deviations on all of T(2,2)"),
+        bound=dict(quick="number strings <= 6 bytes; supplementary pairs at bit-field edges; ws deviations on T(1,2) only; scale: 200..1100-byte numbers, wide containers to 300 members, pairs of 3000..20000-byte strings",
+                   thorough="number strings <= 8 bytes; all 1,048,576 supplementary pairs; ws deviations on all of T(2,2); scale families as in quick"),
         states_stat="cases", transitions_stat="calls",
         technique="exhaustive enumeration of bounded input languages executed on the real parser, compared with a reference reader",
         claim="every text of the enumerated sub-languages was parsed by the real code in both modes and both delivery forms "
@@ -35,8 +35,8 @@ PROPS = {
              "position of runs of length 3..40 crossing the 32-byte buffer growth, integer boundary lattice in both signednesses, "
              "doubles m*10^e / every binade boundary and neighbours / exponent shapes / retained text, tree family T(2,2,L,{a,'',/}), "
              "nesting chains to 40) x all 64 flag sets; non-trivial = distinct tree whose text is longer than 6 bytes",
-        bound=dict(quick="2-byte strings with a special byte in either slot; m<=99, e step 7; T(2,2) over 4 leaves",
-                   thorough="all 65,536 2-byte strings; m<=999, every e in -330..310; T(2,2) over 6 leaves"),
+        bound=dict(quick="2-byte strings with a special byte in either slot; m<=99, e step 7; T(2,2) over 4 leaves; scale: strings and names of 127..4097 bytes with every control byte at 6 positions, containers to 129 members, nesting to 120",
+                   thorough="all 65,536 2-byte strings; m<=999, every e in -330..310; T(2,2) over 6 leaves; scale families as in quick"),
         states_stat="cases", transitions_stat="calls",
         technique="exhaustive enumeration of API-built trees x all 64 flag sets on the real serializer, judged by a reference reader and round trip",
         claim="for every enumerated tree and every one of the 64 flag combinations the real serializer's text was read by an independent "
@@ -114,7 +114,7 @@ PROPS = {
         rule="BFS over histories of printbuf_memappend / memappend_fast / memset / sprintbuf / reset whose size and offset arguments are taken relative to the "
              "current (bpos,size): room-2..room+1, 2*size, -1, INT_MAX-bpos-{1,0,9}; offsets -2,-1,0,bpos-1..bpos+1,size-1,size,size+3 x lengths 0,1,size-off-1..+1, "
              "INT_MAX-off(+1), -1; formatted output of 0,5,127,128,129,300 bytes; states merged on (bpos,size,contents); non-trivial = distinct state",
-        bound=dict(quick="4 operations after the start state; start states: empty, 31 and 4000 bytes already written; growth capped at 4x", thorough="5 operations; start states empty, 31, 4000, 8190, 16383, 65530 bytes"),
+        bound=dict(quick="4 operations after the start state; start states: empty, 31 and 4000 bytes already written; growth capped at 5x the start fill", thorough="5 operations; start states empty, 31, 4000, 8190, 16383, 65530 bytes"),
         states_stat="states", transitions_stat="transitions",
         technique="explicit-state BFS of operation histories on the real printbuf (ASan build), byte-array reference model checked after every transition",
         claim="after every transition of every history to the depth bound the buffer's length and bytes equal a plain byte-array model, appended text is NUL-terminated "
@@ -129,7 +129,7 @@ PROPS = {
         rule="BFS over histories on arrays created with capacity 0,1,2,default: add, put_idx/insert_idx at {0,len-1,len,len+1,len+3,SIZE_MAX-1,SIZE_MAX} with an element or NULL, "
              "del_idx(i,n) with i in {0,len-1,len,len+1,SIZE_MAX} and n in {0,1,len-i,len-i+1,SIZE_MAX}, shrink(0,1,len); get_idx over 0..len+2 after each step; states merged on "
              "(length, capacity, null pattern); plus sort/bsearch on every array over {0,1,2} up to the length bound; non-trivial = distinct state / distinct sorted input",
-        bound=dict(quick="depth 6 (creation + 5 operations) from 6 initial states (capacities 0,1,2,default, pre-filled to 31 and 32), growth capped at +13; sort inputs <= 6 elements", thorough="depth 8 from 9 initial states (capacities 0,1,2,default and arrays pre-filled to 31,32,33,63,64 elements); sort inputs <= 7 elements"),
+        bound=dict(quick="depth 6 (creation + 5 operations) from 6 initial states (capacities 0,1,2,default, pre-filled to 31 and 32), growth capped at +13; sort inputs <= 6 elements; scale scripts to 1025 elements", thorough="depth 8 from 9 initial states (capacities 0,1,2,default and arrays pre-filled to 31,32,33,63,64 elements); sort inputs <= 7 elements; scale scripts to 1025 elements"),
         states_stat="states", transitions_stat="transitions",
         technique="explicit-state BFS of operation histories on the real array (ASan build, poison-filled allocator), list reference model and exact release-set oracle",
         claim="after every transition length, element identity at every index, NULL past the end, return code and the exact set of elements destroyed equal a plain list model; "
@@ -147,7 +147,7 @@ PROPS = {
              "{'', a, b, 300-byte, two keys searched to collide with 'a' modulo 16 and 32} x both string hashes x 4 seeds, from the empty object and from 10 insertions "
              ", 21 and 42 insertions (so the 16->32, 32->64 and 64->128 growths are inside the bound), operations add / add_ex(KEY_IS_NEW) / add_ex(CONSTANT_KEY) / add NULL / del; oracle after every transition: "
              "length, lookup of every key, 5 iteration forms, serialization, release set, and foreach-with-deletion at every position; non-trivial = distinct state",
-        bound=dict(quick="level A 3 keys (500 configurations) to fix-point; level B depth 4 from prefixes 0, 10, 21", thorough="level A 4 keys (2500 configurations) to fix-point; level B depth 6 (depth 5 from the 21- and 42-member prefixes)"),
+        bound=dict(quick="level A 3 keys (500 configurations) to fix-point; level B depth 4 from prefixes 0, 10, 21; scale script: 1100-key fill and 4 churn rounds under both hash functions, model compared at every growth", thorough="level A 4 keys (2500 configurations) to fix-point; level B depth 6 (depth 5 from the 21- and 42-member prefixes); scale script as in quick"),
         states_stat="states", transitions_stat="transitions",
         technique="explicit-state BFS of operation histories on the real hash table / object (ASan build) to a fix-point, ordered-map reference model",
         claim="every reachable table state (all collision patterns, tombstone chains, wrap-around, growth with tombstones) for the key universe was visited and compared with an "
@@ -162,7 +162,7 @@ PROPS = {
         rule="string node created with length in {0,1,7,8,9,31,32,33,100} x 3 content patterns (ASCII, embedded NUL + 0xFF, non-UTF-8), then any history of "
              "set_string_len(pattern, n in {0,1,7,8,9,15,16,17,40,100}), the same with its allocation failed, set_string (strlen-based, argument with an embedded NUL), "
              "and refused lengths (INT_MAX-1, INT_MAX, negative); BFS to a fix-point merged on (creation length, inline/separate, length, pattern); non-trivial = distinct state",
-        bound=dict(quick="fix-point (finite state space)", thorough="fix-point (finite state space)"),
+        bound=dict(quick="fix-point (finite state space) over lengths 0..256 at every storage-class boundary", thorough="fix-point over lengths 0..70000 (adds 255, 256, 65535, 65536, 70000)"),
         states_stat="states", transitions_stat="transitions",
         technique="explicit-state BFS to a fix-point on the real string node (ASan build, allocation fault plan), byte-string reference model",
         claim="in every reachable state the reported length, the bytes, the terminating NUL, equality (both directions, against equal/different/shorter nodes), deep copy and the "
@@ -195,7 +195,7 @@ PROPS = {
              "nesting-2 containers over a pool of such values with all name pairs; pointers: the correctly escaped pointer of every node, every string over {/,~,0,1,a,-} up to the "
              "length bound, and one-step-beyond targets (new key, -, index len, len+1, escaped keys, empty token); operations get, getf, getf with split format, set and setf with an int, "
              "null and container value; non-trivial = distinct container tree",
-        bound=dict(quick="get: all 9331 strings <= 5 on nesting-1 trees, <= 4 on nesting-2 (pool of 8); set: <= 4 / <= 3", thorough="get <= 5 everywhere (pool of 16); set <= 5 / <= 4"),
+        bound=dict(quick="get: all 9331 strings <= 5 on nesting-1 trees, <= 4 on nesting-2 (pool of 8); set: <= 4 / <= 3; plus documents with 100..300-byte keys, 12-level nesting, array indices to 2^32+k", thorough="get <= 5 everywhere (pool of 16); set <= 5 / <= 4; scale documents as in quick"),
         states_stat="cases", transitions_stat="calls",
         technique="exhaustive enumeration of adversarial-key trees x all short pointer strings on the real json_pointer code (ASan build), RFC 6901 evaluator over the value model as oracle",
         claim="for every (tree, pointer) pair success/failure equals RFC 6901 evaluation, a successful lookup returns the very node found by walking the tree, set places the value exactly "
@@ -212,7 +212,7 @@ PROPS = {
              "+ new name / escaped new name / - / index len / len+1, 3 malformed} x 4 values x from in every node pointer (+ absent); both calling conventions; (b) full product of "
              "15 op values x 9 path values x 3 value x 7 from values (absent, null, numbers, booleans, containers, strings) as a one-element patch and after a valid element, non-object elements, "
              "non-array patches, argument-shape errors; non-trivial = distinct (patch, calling convention)",
-        bound=dict(quick="sequences of length <= 2", thorough="sequences of length <= 3 with the reduced menu (2 values, every other from)"),
+        bound=dict(quick="sequences of length <= 2; targets include a 12-element array and indices to 2^32+k", thorough="sequences of length <= 3 with the reduced menu (2 values, every other from)"),
         states_stat="cases", transitions_stat="calls",
         technique="exhaustive enumeration of patch operation sequences over evolving documents on the real json_patch code (ASan build, crash isolated), RFC 6902 interpreter over the value model as oracle",
         claim="for every enumerated (document, patch) success/failure, the failing index and the resulting document equal sequential RFC 6902 evaluation; the patch document is unchanged; "
@@ -243,7 +243,7 @@ PROPS = {
              "array_put_idx {0,1,3}, array_insert_idx {0,1}, array_del_idx, array_shrink, an extra reference taken through object_get / array_get_idx + get, set_userdata / set_serializer (replacing the callback), deep_copy (tracked shallow copy), json_pointer_set "
              "('', /a, /0, /a/b, /-), json_patch_apply (6 patches: remove, move, add, test+remove); operations enabled only when they follow the ownership rules (the pool gives away a "
              "reference it owns, no cycle); states merged on the canonical reference-count graph; at every state all references are drained in every slot order; non-trivial = distinct state",
-        bound=dict(quick="history depth 6", thorough="history depth 7"),
+        bound=dict(quick="history depth 6; scale scripts: 255..200000 references per node, containers with 100..1000 children", thorough="history depth 7; scale scripts as in quick"),
         states_stat="states", transitions_stat="transitions",
         technique="explicit-state BFS of API call histories on the real reference-counted tree (ASan build), reference-count graph model predicting the exact destruction set of every call",
         claim="for every transition the return code and the exact set of destruction callbacks equal the ownership model (nothing early, late or twice), every node the pool still owns dumps "
@@ -259,7 +259,7 @@ PROPS = {
              "set_string growing, deep copy, serialization of a 41-element tree under 3 flag sets, pointer get/getf/set/setf, one patch per operation kind in place and with copy_from, "
              "tokener creation, from_fd/to_fd, double-format option, equal/visit/get_string); every allocation-like call (malloc, calloc, realloc, strdup, vasprintf, duplocale, newlocale) "
              "of the operation is failed in turn (bound 1), then every pair k1<k2 (bound 2); non-trivial = distinct (workload, failed index)",
-        bound=dict(quick="all single faults; all pairs for workloads with <= 45 allocations", thorough="all single faults; all pairs for every workload"),
+        bound=dict(quick="all single faults; all pairs for workloads with <= 45 allocations; includes 96 generated buffer-boundary parse workloads, 300-byte-key pointer/patch workloads, a 9 KB document", thorough="all single faults; all pairs for every workload"),
         states_stat="cases", transitions_stat="calls",
         technique="exhaustive enumeration of allocation-failure choice points (all singles, all pairs) over a workload corpus on the real code (ASan build), normal-or-clean-failure oracle with allocation accounting",
         claim="for every workload and every failed allocation index (and pair) the operation returned its fault-free result or failed through its documented channel, objects the caller "
@@ -275,7 +275,7 @@ PROPS = {
              "an invalid, a bare-number and an empty text x {from_fd, from_fd_ex(3), from_fd_ex(32), from_file}; every read()/write() is a choice point: for texts <= 12 bytes every "
              "transfer size 1..n and three errno values (EIO, EINTR, ENOSPC) at every call (all compositions), for larger ones sizes {all,1,2,n/2,n-1} and the three errors with a bounded number of deviations; "
              "open() failure, NULL object; non-trivial = distinct (operation, document, variant)",
-        bound=dict(quick="<= 2 deviations on large documents", thorough="<= 4 deviations on large documents"),
+        bound=dict(quick="<= 2 deviations on large documents (4095..70000 bytes)", thorough="<= 4 deviations on large documents (3 on 12288/20000 bytes, 2 on 70000 bytes)"),
         states_stat="cases", transitions_stat="schedules",
         technique="exhaustive enumeration of per-call transfer sizes and injected errors (choice points at read/write/open) on the real file I/O helpers (ASan build)",
         claim="for every explored schedule the bytes accepted by write() concatenate to exactly the serialization (or the call reports failure with a message), and reading yields the same "
